@@ -23,9 +23,11 @@ SPEC = dict(
              'index_cumulative, crc_covers_prefix, completion_tag; order_valid / order_total for the model of Cell.order (terminates with the driver\'s fuel). '
              'Every run additionally executes the Lean strict reader AND an independent Python strict reader on the bytes the LIBRARY really emits for generated DAGs x 6 option sets and compares the decoded '
              'DAG with the one the library holds; the emitter model is tied to the code byte-for-byte on the same inputs.',
-        level_note='Trusted: Lean kernel (propext, Classical.choice, Quot.sound); Spec/Boc.lean as the transcription of boc.tlb + reference-node checks; Model/BocEmit.lean as a hand '
-                   'transcription of Cell.order/serialize/to_boc tied to the code only by sampled byte-for-byte correspondence (all generated DAGs x 6 option sets, incl. 255/256/257 cells, '
-                   'payload 127..65536 bytes, depth-1023 chains, exotic cells; thorough: 65535/65536/65537/70000 cells); SHA-256 is a parameter in the theorems; the Python harness.',
+        level_note='Trusted: Lean kernel (propext, Classical.choice, Quot.sound); Spec/Boc.lean (+ Spec/Cell.lean, Spec/Crc.lean) as the transcription of boc.tlb, tvm.pdf 3.1.4 and the reference-node checks; '
+                   'Model/BocEmit.lean (and Model/Cell.lean) as hand transcriptions of Cell.order/serialize/to_boc/__init__, tied to the code only by SAMPLED byte-for-byte correspondence '
+                   '(every generated DAG x 6 option sets per run, incl. 127/128/254-257/65536 cells, payload 126..65536 bytes, depth-1023 chains, exotic cells, maximal sharing; thorough: 65535/65537/70000 cells); '
+                   'Python dict/set semantics modelled by hash map/set + key list; SHA-256 is a parameter in the theorems, with a LOCAL no-collision hypothesis; theorem domain: spec-valid cells whose exotic '
+                   'cells carry their type byte, < 2^32 cells, < 2^63 payload bytes; 4-byte offset widths (> 16 MB of cell data) are never sampled; the Python harness.',
         technique='Lean 4 proof (hand model, independent strict-reader spec) + the strict readers run on the library\'s real output + byte-for-byte correspondence',
     ),
     design_ref='DESIGN.md §6 C04',
